@@ -257,6 +257,16 @@ var c05Binary = []string{"+", "-", "*", "/", "%", "==", "!=", "<", "<=", ">", ">
 var c05Methods = []string{"type()", "size()", "double()", "number()", "decimal()", "decimal(5,2)", "decimal(1000,1000)", "decimal(1,-1000)", "integer()", "bigint()", "boolean()", "string()", "abs()", "floor()", "ceiling()", "keyvalue()",
 	"datetime()", "date()", "time()", "time(3)", "time_tz()", "timestamp()", "timestamp_tz()", "timestamp_tz(0)"}
 
+// like_regex patterns that are hostile to whatever turns a pattern into a Go
+// regular expression: under the q flag every string is a valid pattern.
+var c05QPatterns = []string{`a\E(`, `\E`, `\Q`, `\Qa\E(`, `a\Eb`, `(`, `[a`, `*`, `a{2,1}`, `\`, `\E\E[`, `(?i`, `100%`, `a\E\Q(`, `\E|(`, `.`, ``}
+
+// datetime texts at and beyond the edges of what the documentation describes
+// (time.Parse takes zone offsets of up to 24 hours; years 0..9999)
+var c05HostileTimes = []string{"12:00:00+16", "12:00:00-16:00", "12:00:00+23:59", "12:00:00+24", "12:00:00-24:00", "12:00:00+15:59", "2024-02-29 10:00:00-20:00", "2024-02-29T10:00:00+18",
+	"2024-02-29T23:59:59.999999999-23:59", "0001-01-01", "9999-12-31", "9999-12-31T23:59:59.999999999-00:01", "0000-01-01", "0000-01-01T00:00:00+15:59", "0001-01-01T00:00:00+15:59", "24:00:00", "23:59:60", "2024-02-30",
+	"12:00:00+1", "12:00:00+0:30", "12:00:00Z", "12:00:00+00:00:30", "10000-01-01", "12:00:00-00:00", "2024-01-01T00:00:00.0000000001Z", "00:00:00+17:30", "9999-12-31 23:59:59+24:00", "0000-01-01 00:00:00-24"}
+
 func operandExprK(k kindVal, name string) string {
 	if k.dt {
 		return "$" + name + ".datetime()"
@@ -381,15 +391,67 @@ func runC05(c *h.Ctx) {
 			runMatrixCase(c, fmt.Sprintf(form, xe), vars, vt)
 		}
 	}
+	// (a2) like_regex: hostile patterns x flag sets x operand kinds
+	for i, pat := range c05QPatterns {
+		for j, fl := range []string{"q", "iq", "qs", "mq", "qi", "", "i", "s"} {
+			if !c.Mine(i*8 + j) {
+				continue
+			}
+			ptxt := "$x like_regex " + quoteForPath(pat)
+			if fl != "" {
+				ptxt += ` flag "` + fl + `"`
+			}
+			if cachedPath(ptxt) == nil {
+				continue // as a regular expression the pattern is rejected by Parse
+			}
+			for _, xv := range []any{pat, "a" + pat + "z", "", "a", 1.0, nil, []any{pat, "x", 2.0}, map[string]any{"a": pat}} {
+				vars := map[string]any{"x": xv}
+				vt := fmt.Sprintf(`{"x":%s}`, kindJSON(xv))
+				runMatrixCase(c, ptxt, vars, vt)
+				runMatrixCase(c, "$x[*] ? (@ like_regex "+quoteForPath(pat)+` flag "q")`, vars, vt)
+			}
+		}
+	}
+	// (a3) datetime texts at the edges: every datetime method, printing, and
+	// comparison of every pair
+	for i, x := range c05HostileTimes {
+		for j, y := range c05HostileTimes {
+			if !c.Mine(i*len(c05HostileTimes) + j) {
+				continue
+			}
+			vars := map[string]any{"x": x, "y": y}
+			vt := fmt.Sprintf(`{"x":%q,"y":%q}`, x, y)
+			if j == 0 {
+				for _, m := range c05Methods[16:] {
+					runMatrixCase(c, "$x."+m, vars, vt)
+					runMatrixCase(c, "$x."+m+".string()", vars, vt)
+					runMatrixCase(c, "$x."+m+".type()", vars, vt)
+					runMatrixCase(c, "$x.datetime()."+m, vars, vt)
+				}
+			}
+			for _, op := range []string{"==", "<", ">="} {
+				runMatrixCase(c, "$x.datetime() "+op+" $y.datetime()", vars, vt)
+			}
+			runMatrixCase(c, "$x.time_tz() <= $y.timestamp_tz()", vars, vt)
+			runMatrixCase(c, "$x.timestamp_tz().date() != $y.timestamp().time_tz()", vars, vt)
+		}
+	}
 	c.SetExhaustive(fmt.Sprintf("%d value kinds squared x %d binary forms + unary/method/accessor forms x lax/strict x silent x WithTZ x 5 entry points", len(kinds), len(c05Binary)+3))
 	c.Sample("matrix", map[string]any{"path": "$x.datetime() == $y", "vars": `{"x":"2023-08-15","y":1e400 (json.Number)}`})
 
 	// (b) the generic random workload through all five entry points
 	eg := NewExecGen(c.Rand("c05"))
 	eg.G.C.Datetime = true
+	eg.G.C.QPatterns = c05QPatterns
+	eg.DC.Strs = append(append([]string{}, eg.DC.Strs...), c05HostileTimes...)
+	eg.DC.Strs = append(eg.DC.Strs, c05QPatterns[:6]...)
 	n := c.PerShard(c.N(400000, 4000000))
 	for i := 0; i < n; i++ {
 		ec := eg.Next()
+		if ec.TZ && i%8 == 0 {
+			// a session zone at the edge of what a fixed zone can be
+			ec.Zone = []string{"+16:00", "-23:59", "+24:00", "-18:30"}[i/8%4]
+		}
 		doc := ec.DocValue()
 		if i%2 == 1 {
 			// arrays cut out of one backing array, with spare capacity
